@@ -870,7 +870,7 @@ impl Mp4TrackWriter {
     }
 
     fn write_chunk<W: Write + Seek>(&mut self, writer: &mut W) -> Result<()> {
-        if self.chunk_buffer.is_empty() {
+        if self.chunk_samples == 0 {
             return Ok(());
         }
         let chunk_offset = writer.stream_position()?;
